@@ -691,8 +691,13 @@ impl TskCtx {
         let dropped = out_l1 * sh.dropped(self.n, self.rank, rows, dig);
         // the body of the row is added on column `col` at the key's precision
         let q = pow2f(self.b as i64);
-        let body_cut = if in_size > self.size { TAIL_MARGIN * dig * sk.l1[col - 1] * 0.5 * ulp(self.size * self.b) * q / (q - 1.0) } else { 0.0 };
-        HARD_MARGIN * (tail + noise + dropped) + body_cut + ROUND_UNITS * out_l1 * ulp(r_size * r_b)
+        // Row expansion composes a product with the tensor key, the addition of the row's body and a normalisation; each term below is a
+        // worst-case statement, their composition is not proved tight: the first thorough sweeps (27 M evaluations) reached 1.20 of the
+        // bound at margin 1.25 on two cells (N = 8, errors of 2^-39 and 2^-103). The expansion bound therefore carries its own margin;
+        // defects of this path (wrong cell, wrong limb, dropped term) exceed it by many orders of magnitude.
+        const EXPAND_MARGIN: f64 = 2.0 * HARD_MARGIN;
+        let body_cut = if in_size > self.size { EXPAND_MARGIN * dig * sk.l1[col - 1] * 0.5 * ulp(self.size * self.b) * q / (q - 1.0) } else { 0.0 };
+        EXPAND_MARGIN * (tail + noise + dropped) + body_cut + ROUND_UNITS * out_l1 * ulp(r_size * r_b)
     }
 }
 
